@@ -298,3 +298,221 @@ func sortInts(a []int) {
 		}
 	}
 }
+
+// teardownCase replays the Run/Close teardown of one syncer (steps of Run, the three loops,
+// connection goroutines, the life cycle of every peer, Close) through the TD system (repaired
+// code).  The model's state is the multiset of thread program counters; which peer is "open" or
+// "closed" is tracked here from the events that close transports (Run's sweep, the shutdown
+// watcher); a peer that leaves its loop while its transport is, as far as the syncer's own steps
+// go, still open was closed by the environment (remote end): that environment step is inserted.
+// The model starts as a RUNNING syncer, so the case is only produced when the trace shows Run and
+// its three loops started before anything else happened.
+func teardownCase(name string, events []ev, syncerID, tgID int, tags []string) *vh.Case {
+	c := &vh.Case{Name: name + "/teardown", Model: "conc teardown", Nontrivial: true, Tags: append([]string{"trace:teardown"}, tags...)}
+	// pass 1: goroutine roles
+	runG := -1
+	loopG := map[int]bool{}
+	type rp struct{ startAt, exitAt, runAt, pid int }
+	inner := map[int]*rp{}      // runPeer goroutine -> its own tg.add / tg.done
+	refusedAdd := map[int]int{} // goroutine -> Seq of the rejected tg.add that belongs to a refused runPeer
+	lastAdd := map[int]int{}
+	lastRej := map[int]int{}
+	started := 0
+	firstOther := -1
+	for _, e := range events {
+		switch {
+		case e.Kind == "s.run.start" && e.A == syncerID:
+			runG = e.G
+		case e.Kind == "s.loop.start" && e.A == syncerID:
+			loopG[e.G] = true
+			started++
+		case e.Kind == "tg.add" && e.A == tgID:
+			if e.B == 1 {
+				lastAdd[e.G] = e.Seq
+			} else {
+				lastRej[e.G] = e.Seq
+			}
+		case e.Kind == "tg.done" && e.A == tgID:
+			if r := inner[e.G]; r != nil && r.exitAt < 0 && e.Seq > r.runAt {
+				r.exitAt = e.Seq
+			}
+		case e.Kind == "s.peer.run" && e.A == syncerID:
+			inner[e.G] = &rp{startAt: lastAdd[e.G], exitAt: -1, runAt: e.Seq, pid: e.B}
+		case e.Kind == "s.peer.refused" && e.A == syncerID:
+			refusedAdd[e.G] = lastRej[e.G]
+		}
+		if firstOther < 0 && e.A == syncerID && (e.Kind == "s.close.l" || e.Kind == "s.loop.exit" || e.Kind == "s.peer.add") && started < 3 {
+			firstOther = e.Seq
+		}
+		if firstOther < 0 && e.A == tgID && e.Kind == "tg.stop" && started < 3 {
+			firstOther = e.Seq
+		}
+	}
+	if runG < 0 || started != 3 || firstOther >= 0 {
+		return nil // Close overtook the start of Run: not a run of the model's initial state
+	}
+	type peer struct{ serving, closed, unwound bool }
+	peers := map[int]*peer{}
+	peerOfG = map[int]int{}
+	handlerG := map[int]bool{}
+	connOpen := map[int]int{}
+	stopped := false
+	for _, e := range events {
+		if e.Kind == "s.h.start" {
+			if _, ok := peers[e.A]; ok {
+				handlerG[e.G] = true
+			}
+			continue
+		}
+		switch {
+		case e.A == tgID && e.Kind == "tg.add":
+			switch {
+			case e.G == runG || loopG[e.G] || handlerG[e.G]:
+			case inner[e.G] != nil && inner[e.G].startAt == e.Seq:
+				// runPeer joins the group (the peer is named by the s.peer.run that follows)
+				pid := inner[e.G].pid
+				peerOfG[e.G] = pid
+				if p := peers[pid]; p != nil {
+					if p.closed {
+						c.Op("peeradd closed", "ok")
+					} else {
+						c.Op("peeradd open", "ok")
+					}
+					p.serving = true
+				}
+			case e.B == 0 && refusedAdd[e.G] == e.Seq:
+			case e.B == 1:
+				connOpen[e.G]++
+				c.Op("connstart", "ok")
+			default:
+				c.Op("connstart", "closed")
+			}
+		case e.A == tgID && e.Kind == "tg.done":
+			switch {
+			case e.G == runG:
+				c.Op("runreturn", "ok")
+			case loopG[e.G] || handlerG[e.G]:
+			case inner[e.G] != nil && inner[e.G].exitAt == e.Seq:
+				// handled at the peer's own events below (needs the peer): see s.peer.run bookkeeping
+				if pid, ok := peerOfG[e.G]; ok {
+					if p := peers[pid]; p != nil {
+						if !p.closed {
+							if stopped {
+								c.Op("watch", "ok")
+							} else {
+								c.Op("remoteclose serving", "ok")
+							}
+							p.closed = true
+						}
+						c.Op("peererr", "ok")
+						p.serving, p.unwound = false, true
+					}
+				}
+			case connOpen[e.G] > 0:
+				connOpen[e.G]--
+				c.Op("connfail", "ok")
+			}
+		case e.A == tgID && e.Kind == "tg.stop":
+			if e.B == 1 {
+				stopped = true
+				c.Op("closestop", "ok")
+			}
+		case e.A == tgID && e.Kind == "tg.stopped":
+			c.Op("closeret", "ok")
+		case e.A != syncerID:
+		case e.Kind == "s.peer.add":
+			peers[e.B] = &peer{}
+			if connOpen[e.G] > 0 {
+				connOpen[e.G]--
+				c.Op("connadd", "ok")
+			} else {
+				c.Fail("corr", "corr:conc", "a peer was added by a goroutine that holds no slot of the thread group")
+			}
+		case e.Kind == "s.peer.run":
+			// already replayed at the position of runPeer's tg.Add
+		case e.Kind == "s.peer.refused":
+			if p := peers[e.B]; p != nil {
+				if p.closed {
+					c.Op("peeradd closed", "refused")
+				} else {
+					c.Op("peeradd open", "refused")
+				}
+				p.unwound, p.closed = true, true
+			}
+		case e.Kind == "s.peer.watch":
+			if p := peers[e.B]; p != nil && p.serving && !p.closed {
+				c.Op("watch", "ok")
+				p.closed = true
+			}
+		case e.Kind == "s.peer.rm":
+			if _, ok := peers[e.B]; ok {
+				c.Op("peerremove", "ok")
+				delete(peers, e.B)
+			}
+		case e.Kind == "s.loop.exit":
+			if e.B == 0 {
+				c.Op("loopexit accept", "ok")
+			} else {
+				c.Op("loopexit bg", "ok")
+			}
+		case e.Kind == "s.run.recv":
+			c.Op("recv", "ok")
+		case e.Kind == "s.run.lclose":
+			c.Op("lclose", "ok")
+		case e.Kind == "s.run.sweep":
+			for _, p := range peers {
+				p.closed = true
+			}
+			c.Op("sweep", fmt.Sprintf("ok %d", e.B))
+		case e.Kind == "s.run.drained":
+			c.Op("drained", "ok")
+		case e.Kind == "s.close.l":
+			c.Op("closel", "ok")
+		}
+	}
+	c.Key = fmt.Sprintf("%s#%d", c.Name, len(c.Ops))
+	return c
+}
+
+// peerOfG: runPeer goroutine -> peer (filled while replaying; reset per case)
+var peerOfG = map[int]int{}
+
+// srvCase replays the rhp4 server's thread group as the Srv system: the harness records a marker
+// when it issues an RPC (a stream the Serve loop will accept) and when it calls Close; the
+// server's thread group is the one stopped by the goroutine that recorded the Close marker.
+func srvCase(name string, events []ev, tags []string) *vh.Case {
+	closeG, tgID := -1, 0
+	for _, e := range events {
+		if e.Kind == "x.srv.close" {
+			closeG = e.G
+		}
+		if e.Kind == "tg.stop" && e.G == closeG && tgID == 0 {
+			tgID = e.A
+		}
+	}
+	if tgID == 0 {
+		return nil
+	}
+	c := &vh.Case{Name: name + "/srv", Model: "conc srv", Nontrivial: true, Tags: append([]string{"trace:srv"}, tags...)}
+	for _, e := range events {
+		switch {
+		case e.Kind == "x.srv.stream":
+			c.Op("stream", "ok")
+		case e.A != tgID:
+		case e.Kind == "tg.add" && e.B == 1:
+			c.Op("enter", "ok")
+		case e.Kind == "tg.add":
+			c.Op("enter", "refused")
+		case e.Kind == "tg.done":
+			c.Op("finish", "ok")
+		case e.Kind == "tg.stop" && e.B == 1:
+			c.Op("close", "first")
+		case e.Kind == "tg.stop":
+			c.Op("close", "again")
+		case e.Kind == "tg.stopped":
+			c.Op("closeret", "ok")
+		}
+	}
+	c.Key = fmt.Sprintf("%s#%d", c.Name, len(c.Ops))
+	return c
+}
